@@ -973,6 +973,13 @@ func (d *Pegnetd) ApplyTransactionBlock(sqlTx *sql.Tx, eblock *factom.EBlock) er
 		} else if isReplay {
 			continue
 		}
+		// A copy of an entry that is still pending or was rejected is not a new entry
+		isRecorded, err := d.Pegnet.IsRecordedTransaction(sqlTx, txBatch.Entry.Hash)
+		if err != nil {
+			return err
+		} else if isRecorded {
+			continue
+		}
 		// At this point, we know that the transaction batch is valid and able to be executed.
 
 		if err = d.Pegnet.InsertTransactionHistoryTxBatch(sqlTx, blockorder, txBatch, eblock.Height); err != nil {
